@@ -218,6 +218,89 @@ Proof.
   - split; [reflexivity|]. split; [reflexivity|]. intros i X. discriminate.
 Qed.
 
+(** ---- second round: the lifetime of an id; replace through another queue ---- *)
+Lemma run_from_app : forall a b s,
+  run_from s (a ++ b) =
+  (fst (run_from (fst (run_from s a)) b), snd (run_from s a) ++ snd (run_from (fst (run_from s a)) b)).
+Proof.
+  induction a as [|o r IH]; intros b s; simpl.
+  - now destruct (run_from s b).
+  - destruct (step s o) as [s1 x]. rewrite (IH b s1).
+    destruct (run_from s1 r) as [s2 xs]. simpl. now destruct (run_from s2 b).
+Qed.
+
+Lemma run_app : forall a b, run (a ++ b) = fst (run_from (run a) b).
+Proof. intros a b. unfold run. now rewrite run_from_app. Qed.
+
+Lemma run_inv : forall ops, Z.of_nat (length ops) < two64 -> Inv (run ops).
+Proof.
+  intros ops H. pose proof (run_from_spec ops init inv_init) as S. simpl counter in S.
+  specialize (S ltac:(lia)). cbv zeta in S. unfold run. tauto.
+Qed.
+
+Lemma run_counter : forall ops, Z.of_nat (length ops) < two64 -> 0 <= counter (run ops) <= Z.of_nat (length ops).
+Proof.
+  intros ops H. pose proof (run_from_spec ops init inv_init) as S. simpl counter in S.
+  specialize (S ltac:(lia)). cbv zeta in S. unfold run. lia.
+Qed.
+
+(** An id that was handed out and is in no queue any more stays out of every queue for ever:
+    it cannot be allocated again (the counter is past it) and a replace needs it to be present. *)
+Lemma dead_stays_dead : forall ops s i, Inv s -> counter s + Z.of_nat (length ops) < two64 ->
+  i <= counter s -> (forall q, ~ In i (ids (qs s q))) ->
+  forall q, ~ In i (ids (qs (fst (run_from s ops)) q)).
+Proof.
+  intros ops s i I Hc Hi Hdead q X.
+  pose proof (run_from_spec ops s I Hc) as S. cbv zeta in S. destruct S as [_ [_ [_ [R P]]]].
+  destruct (P q i X) as [H | H]; [now apply (Hdead q) | specialize (R i H); lia].
+Qed.
+
+Theorem removed_id_never_comes_back : forall ops1 q i ops2,
+  Z.of_nat (length (ops1 ++ ORemove q i :: ops2)) < two64 ->
+  In i (ids (qs (run ops1) q)) ->
+  snd (step (run ops1) (ORemove q i)) = ROk /\
+  (forall q', ~ In i (ids (qs (run (ops1 ++ ORemove q i :: ops2)) q'))).
+Proof.
+  intros ops1 q i ops2 Hlen Hin.
+  rewrite app_length in Hlen. simpl length in Hlen.
+  assert (I1 : Inv (run ops1)) by (apply run_inv; lia).
+  pose proof (run_counter ops1 ltac:(lia)) as C1.
+  split; [simpl; apply has_In in Hin; now rewrite Hin|].
+  rewrite run_app. simpl run_from. apply has_In in Hin. simpl step. rewrite Hin. apply has_In in Hin.
+  set (s1 := mkState (counter (run ops1)) (upd (qs (run ops1)) q (remove_item i (qs (run ops1) q)))).
+  assert (I2 : Inv s1).
+  { apply inv_shrink; [assumption | intros x Hx; now apply (ids_remove_In i) | apply ids_remove_NoDup; apply (inv_nodup _ I1)]. }
+  destruct (run_from s1 ops2) as [s2 xs] eqn:E. simpl fst.
+  replace s2 with (fst (run_from s1 ops2)) by now rewrite E.
+  intros q'. apply dead_stays_dead; try assumption.
+  - unfold s1. simpl counter. lia.
+  - unfold s1. simpl counter. pose proof (inv_range _ I1 q i Hin). lia.
+  - intros q0 X. unfold s1 in X. simpl qs in X. destruct (Z.eq_dec q0 q) as [-> | N].
+    + rewrite upd_same in X. apply ids_remove_In in X. now destruct X.
+    + rewrite upd_other in X by assumption. apply N. now apply (inv_owner _ I1 q0 q i).
+Qed.
+
+(** Put with MsgIDToReplace addressed to ANOTHER queue than the one holding the id is refused and
+    changes nothing (the situation seeded change C05-B manifested in). *)
+Theorem replace_through_other_queue_refused : forall ops q q' i c,
+  Z.of_nat (length ops) < two64 -> In i (ids (qs (run ops) q)) -> q' <> q ->
+  step (run ops) (OPut q' i c) = (run ops, RErr).
+Proof.
+  intros ops q q' i c H Hin N. pose proof (run_inv ops H) as I.
+  pose proof (inv_range _ I q i Hin) as R.
+  simpl. destruct (i =? 0) eqn:E0; [apply Z.eqb_eq in E0; lia|].
+  destruct (has i (qs (run ops) q')) eqn:Eh; [| reflexivity].
+  apply has_In in Eh. exfalso. apply N. now apply (inv_owner _ I q' q i).
+Qed.
+
+(** ... and so is a replace of an id that is in no queue (never handed out, or removed). *)
+Theorem replace_of_absent_id_refused : forall s q i c, i <> 0 -> ~ In i (ids (qs s q)) ->
+  step s (OPut q i c) = (s, RErr).
+Proof.
+  intros s q i c H0 Hn. simpl. apply Z.eqb_neq in H0. rewrite H0.
+  destruct (has i (qs s q)) eqn:Eh; [apply has_In in Eh; contradiction | reflexivity].
+Qed.
+
 (** The model's counter discipline is the source's: one key for all queues, last+1, replace guard. *)
 Lemma source_counter_shape :
   Gen.C05.id_counter_key_expr = "consensusQueueIDCounterKey"%string /\
